@@ -60,13 +60,20 @@ struct aws_linked_list g_run;
 struct aws_allocator g_ts_alloc; /* only its address matters */
 uint64_t g_next_out;             /* where has_tasks() reports the next time */
 
-/* invocation log of the task functions */
-size_t g_fn_calls;
-struct aws_task *g_fn_task;
-void *g_fn_arg;
-int g_fn_status;
+/* invocation log of the task functions (one object: one assigns target) */
+struct ts_fn_log {
+    size_t calls;           /* total number of invocations */
+    struct aws_task *task;  /* last invocation: task, arg, status */
+    void *arg;
+    int status;
+    bool st_bad;            /* some aws_task_run call had another status than g_expect_status */
+} g_fl;
+#define g_fn_calls g_fl.calls
+#define g_fn_task g_fl.task
+#define g_fn_arg g_fl.arg
+#define g_fn_status g_fl.status
+#define g_st_bad g_fl.st_bad
 bool g_fn_req_detached;
-bool g_st_bad;
 int g_expect_status;
 
 /* abstract heap + call records */
@@ -124,7 +131,8 @@ bool g_init_fails;
 #define TS_UNLINKED(t) ((t)->node.next == NULL && (t)->node.prev == NULL && TS_HANDLE(t) == SIZE_MAX)
 
 /* everything of a task except its function pointer (what the task function may rewrite: it may re-schedule the task) */
-#define TS_A_TASK_BUT_FN(t) (t)->arg, (t)->timestamp, (t)->node, (t)->priority_queue_node, (t)->type_tag, (t)->abi_extension
+/* (one byte range: everything behind the first member; one assigns target instead of six keeps DFCC's write-set inclusion checks small) */
+#define TS_A_TASK_BUT_FN(t) __CPROVER_object_upto((uint8_t *)&(t)->arg, sizeof(struct aws_task) - offsetof(struct aws_task, arg))
 
 /* ---------------------------------------------------------------- task function (DESIGN §4.6) */
 void ts_task_fn_contract(struct aws_task *task, void *arg, enum aws_task_status status)
@@ -133,7 +141,7 @@ __CPROVER_requires(TS_IS_TASK(task))
 __CPROVER_requires(!TS_SCHEDULED(task))
 /* scheduler-level callers: the task is out of every container when its function runs */
 __CPROVER_requires(g_fn_req_detached ==> TS_UNLINKED(task))
-__CPROVER_assigns(g_fn_calls, g_fn_task, g_fn_arg, g_fn_status, TS_A_TASK_BUT_FN(task))
+__CPROVER_assigns(g_fl.calls, g_fl.task, g_fl.arg, g_fl.status, TS_A_TASK_BUT_FN(task))
 __CPROVER_ensures(g_fn_calls == OLD(g_fn_calls) + 1 && g_fn_task == task && g_fn_arg == arg && g_fn_status == (int)status)
 ;
 aws_task_fn *g_ts_keep_fn = ts_task_fn_contract; /* address taken: required by obeys_contract */
@@ -142,7 +150,7 @@ aws_task_fn *g_ts_keep_fn = ts_task_fn_contract; /* address taken: required by o
 /* "the function of `task` was invoked exactly once by this call, with status st and the task's own arg" */
 #define TS_RAN_ONCE(task, st)                                                                                          \
     (g_fn_calls == OLD(g_fn_calls) + 1 && g_fn_task == (task) && g_fn_arg == OLD((task)->arg) && g_fn_status == (int)(st))
-#define TS_A_FN_LOG g_fn_calls, g_fn_task, g_fn_arg, g_fn_status
+#define TS_A_FN_LOG g_fl
 
 /* ---------------------------------------------------------------- environment */
 /* ASSUMED: no logger is installed (the AWS_LOGF_TRACE call sites are then dead; logging is not part of the property) */
@@ -236,7 +244,7 @@ __CPROVER_ensures(task->timestamp == 0 && task->node.next == NULL && task->node.
 void aws_task_run(struct aws_task *task, enum aws_task_status status)
 __CPROVER_requires(TS_IS_TASK(task) && TS_FN_OK(task))
 __CPROVER_requires(g_fn_req_detached ==> TS_UNLINKED(task))
-__CPROVER_assigns(TS_A_FN_LOG, g_st_bad, TS_A_TASK_BUT_FN(task))
+__CPROVER_assigns(TS_A_FN_LOG, TS_A_TASK_BUT_FN(task))
 __CPROVER_ensures(TS_RAN_ONCE(task, status))
 /* running tally for callers that make many calls: some call had another status than g_expect_status */
 __CPROVER_ensures(g_st_bad == (OLD(g_st_bad) || (int)status != g_expect_status))
@@ -320,7 +328,7 @@ __CPROVER_requires(TS_LINKED(task) ==> TS_IS_PLACE(task->node.next) && TS_IS_PLA
                                        TS_HANDLE(task) == SIZE_MAX)
 __CPROVER_requires(!TS_LINKED(task) ==> task->node.prev == NULL && (TS_SCHEDULED(task) ? TS_IN_HEAP(task) : TS_HANDLE(task) == SIZE_MAX))
 __CPROVER_requires(g_fn_req_detached)
-__CPROVER_assigns(TS_A_FN_LOG, g_st_bad, TS_A_TASK_BUT_FN(task))
+__CPROVER_assigns(TS_A_FN_LOG, TS_A_TASK_BUT_FN(task))
 __CPROVER_assigns(TS_LINKED(task) : task->node.next->prev, task->node.prev->next)
 __CPROVER_assigns(!TS_LINKED(task) && TS_SCHEDULED(task) : g_q_nremove, g_q_removed_bp, g_q_removed_ok, g_q_size)
 __CPROVER_ensures(TS_RAN_ONCE(task, AWS_TASK_STATUS_CANCELED))
@@ -474,10 +482,23 @@ __CPROVER_ensures(!g_cu_valid ==> g_ht_calls == 0 && g_ra_calls == OLD(g_ra_call
  * run-now tasks were moved first, the task's time is <= the run time (never early), and not smaller than the time of the
  * task moved before it (time order).  The batch is consumed with pop_front only.  Task functions: invocation log, no
  * re-entrancy in this unit (re-entrancy: cancel unit + native units). */
-size_t g_asap_len, g_tl_len, g_run_len, g_tl_front_i, g_run_front_i;
-uint64_t g_now, g_last_moved_ts;
-bool g_swapped, g_moved_any;
-size_t g_moved_timed;
+struct ts_abs {
+    size_t asap_len, tl_len, run_len, tl_front_i, run_front_i;
+    uint64_t last_moved_ts; /* time of the task that entered the batch last */
+    bool swapped;           /* the run-now FIFO was handed to the batch */
+    bool moved_any;
+    size_t moved_timed;     /* number of timed tasks moved to the batch */
+} g_ab;                     /* one object: one assigns target */
+#define g_asap_len g_ab.asap_len
+#define g_tl_len g_ab.tl_len
+#define g_run_len g_ab.run_len
+#define g_tl_front_i g_ab.tl_front_i
+#define g_run_front_i g_ab.run_front_i
+#define g_last_moved_ts g_ab.last_moved_ts
+#define g_swapped g_ab.swapped
+#define g_moved_any g_ab.moved_any
+#define g_moved_timed g_ab.moved_timed
+uint64_t g_now;
 
 #define TS_L_ASAP(l) ((l) == &g_sc.asap_list)
 #define TS_L_TL(l) ((l) == &g_sc.timed_list)
@@ -496,9 +517,9 @@ size_t g_moved_timed;
 #define TS_ABS_ORDER                                                                                                   \
     (g_moved_any ==> (g_tl_len > 0 ==> g_last_moved_ts <= g_tk[g_tl_front_i].timestamp) &&                             \
                       (g_q_size > 0 ==> g_last_moved_ts <= g_tk[g_q_top_i].timestamp))
-#define TS_A_ARENA_LINKS                                                                                               \
-    g_tk[0].node, g_tk[1].node, g_tk[2].node, g_tk[3].node, g_tk[0].priority_queue_node, g_tk[1].priority_queue_node,  \
-        g_tk[2].priority_queue_node, g_tk[3].priority_queue_node
+/* list node + heap handle of every arena task (adjacent members: one byte range per task) */
+#define TS_A_LINKS(t) __CPROVER_object_upto((uint8_t *)&(t)->node, sizeof(struct aws_linked_list_node) + sizeof(struct aws_priority_queue_node))
+#define TS_A_ARENA_LINKS TS_A_LINKS(&g_tk[0]), TS_A_LINKS(&g_tk[1]), TS_A_LINKS(&g_tk[2]), TS_A_LINKS(&g_tk[3])
 #define TS_A_ARENA_BUT_FN TS_A_TASK_BUT_FN(&g_tk[0]), TS_A_TASK_BUT_FN(&g_tk[1]), TS_A_TASK_BUT_FN(&g_tk[2]), TS_A_TASK_BUT_FN(&g_tk[3])
 #define TS_ALL_FN_OK (TS_FN_OK(&g_tk[0]) && TS_FN_OK(&g_tk[1]) && TS_FN_OK(&g_tk[2]) && TS_FN_OK(&g_tk[3]))
 
@@ -521,9 +542,9 @@ __CPROVER_requires(g_now == current_time && g_expect_status == (int)status && !g
 __CPROVER_requires(g_asap_len > 0 ==> g_run_front_i < TSK && TS_HANDLE(&g_tk[g_run_front_i]) == SIZE_MAX &&
                                        (g_q_size > 0 ==> g_run_front_i != g_q_top_i) && (g_tl_len > 0 ==> g_run_front_i != g_tl_front_i))
 __CPROVER_requires(g_asap_len < ((size_t)1 << 62) && g_tl_len < ((size_t)1 << 62) && g_q_size < ((size_t)1 << 62) && g_moved_timed == 0)
-__CPROVER_assigns(g_asap_len, g_tl_len, g_run_len, g_tl_front_i, g_run_front_i, g_q_size, g_q_top_i, g_q_ntop)
+__CPROVER_assigns(g_ab, g_q_size, g_q_top_i, g_q_ntop)
 __CPROVER_assigns(g_sc.asap_list.head.next, g_sc.asap_list.tail.prev, g_sc.timed_list.head.next)
-__CPROVER_assigns(g_last_moved_ts, g_swapped, g_moved_any, g_moved_timed, TS_A_FN_LOG, g_st_bad, TS_A_ARENA_BUT_FN)
+__CPROVER_assigns(TS_A_FN_LOG, TS_A_ARENA_BUT_FN)
 __CPROVER_ensures(g_asap_len == 0 && g_run_len == 0 && g_swapped)
 __CPROVER_ensures(TS_HEADNEXT_OK(&g_sc.timed_list, g_tl_len, g_tl_front_i) && g_sc.asap_list.head.next == &g_sc.asap_list.tail)
 __CPROVER_ensures(g_tl_len == 0 || g_tk[g_tl_front_i].timestamp > current_time)
